@@ -7,10 +7,12 @@ use crate::diagnostics::*;
 use crate::grammar::attributes::Deprecated;
 use crate::grammar::*;
 use crate::utils::ptr_util::{OwnedPtr, WeakPtr};
+use std::collections::HashMap;
 
 pub unsafe fn patch_ast(compilation_state: &mut CompilationState) {
     let mut patcher = TypeRefPatcher {
         type_ref_patches: Vec::new(),
+        lint_scopes: HashMap::new(),
         diagnostics: &mut compilation_state.diagnostics,
     };
 
@@ -21,11 +23,44 @@ pub unsafe fn patch_ast(compilation_state: &mut CompilationState) {
 
 struct TypeRefPatcher<'a> {
     type_ref_patches: Vec<PatchKind>,
+    /// Maps type references (by address) to the scoped identifier of the member or type-alias they belong to (even
+    /// if they're nested inside of anonymous types). Lints about a type reference are reported in this scope, so that
+    /// they can be allowed by attributes on the element they concern.
+    lint_scopes: HashMap<usize, String>,
     diagnostics: &'a mut Diagnostics,
 }
 
 impl TypeRefPatcher<'_> {
+    fn compute_lint_scopes(&mut self, type_ref: &TypeRef, owner: &str) {
+        self.lint_scopes.insert(type_ref as *const TypeRef as usize, owner.to_owned());
+
+        // Anonymous types are always patched by the parser; we recurse into the type references they hold.
+        if let TypeRefDefinition::Patched(ptr) = &type_ref.definition {
+            match ptr.borrow().concrete_type() {
+                Types::Sequence(sequence) => self.compute_lint_scopes(&sequence.element_type, owner),
+                Types::Dictionary(dictionary) => {
+                    self.compute_lint_scopes(&dictionary.key_type, owner);
+                    self.compute_lint_scopes(&dictionary.value_type, owner);
+                }
+                Types::ResultType(result_type) => {
+                    self.compute_lint_scopes(&result_type.success_type, owner);
+                    self.compute_lint_scopes(&result_type.failure_type, owner);
+                }
+                _ => {}
+            }
+        }
+    }
+
     fn compute_patches(&mut self, ast: &Ast) {
+        for node in ast.as_slice() {
+            match node {
+                Node::Field(ptr) => self.compute_lint_scopes(&ptr.borrow().data_type, &ptr.borrow().parser_scoped_identifier()),
+                Node::Parameter(ptr) => self.compute_lint_scopes(&ptr.borrow().data_type, &ptr.borrow().parser_scoped_identifier()),
+                Node::TypeAlias(ptr) => self.compute_lint_scopes(&ptr.borrow().underlying, &ptr.borrow().parser_scoped_identifier()),
+                _ => {}
+            }
+        }
+
         for node in ast.as_slice() {
             let patch = match node {
                 Node::Field(field_ptr) => {
@@ -207,9 +242,11 @@ impl TypeRefPatcher<'_> {
                 // only check the first argument. If it's present, we attach it to the lint message.
                 let identifier = entity.identifier().to_owned();
                 let reason = deprecated.reason.clone();
+                let type_ref_address = type_ref as *const TypeRef<T> as *const () as usize;
+                let scope = self.lint_scopes.get(&type_ref_address).map_or(type_ref.parser_scope(), String::as_str);
                 Diagnostic::new(Lint::Deprecated { identifier, reason })
                     .set_span(type_ref.span())
-                    .set_scope(type_ref.parser_scope())
+                    .set_scope(scope)
                     .add_note(
                         format!("{} was deprecated here:", entity.identifier()),
                         Some(entity.span()),
